@@ -41,8 +41,13 @@ def _single_path(fn, flat=False):
     return (out, list(ok[0].pc)) if flat else (out[0], out[1], list(ok[0].pc))
 
 
-def section_series(rep, n, K, mutate=None):
+def section_series(rep, n, K, mutate=None, diagonal=False):
+    """diagonal: F exactly diagonal (uncoupled random-walk / Gauss-Markov states: structural zeros
+    off the diagonal, symbolic rates in [-2, 2]) - a structure on which an implementation may take a
+    closed-form path; every divisor met on the way must be non-zero for ALL rates (equal, opposite,
+    zero)"""
     import numpy as np
+    import z3
     from .. import symreal as S, enga
     S.new_ctx([('dt', K)])
     m = enga.install()
@@ -50,6 +55,9 @@ def section_series(rep, n, K, mutate=None):
     if mutate:
         mutate(m)
     F, Q = _syms(n)
+    if diagonal:
+        F = S.O([[F[i, j] if i == j else S.J(0) for j in range(n)] for i in range(n)])
+        S.C.dom += [z3.Real('F%d%d' % (i, i)) >= -2 for i in range(n)] + [z3.Real('F%d%d' % (i, i)) <= 2 for i in range(n)]
     dt = S.formal(0)
     Phi, Qd, pc = _single_path(lambda: KF.compute_process_matrices(F, Q, dt))
     J = S.J
@@ -59,6 +67,9 @@ def section_series(rep, n, K, mutate=None):
         Fk.append(S.O([[J(P[i, j]) * Fr(1, k) for j in range(n)] for i in range(n)]))
     obls = []
     meta = {'check': 'series', 'params': {'n': n}}
+    if diagonal:
+        meta = {'check': 'diagonal', 'params': {'n': n}}
+        obls += enga.definedness(S.C, 0, 'diagonal F: every divisor is non-zero for all rates', dict(meta, use_model=True), 'diagonal F, n=%d: ' % n)
     for k in range(K + 1):
         oq = S.symnp.zeros((n, n))
         for a in range(k):
@@ -273,6 +284,9 @@ def run(run):
     for n, K in comp:
         obls = section_composition(rep, n, K)
         rep.finish(rep.batch(obls), PROP)
+    for n, K in (((2, 4),) if run.tier == 'quick' else ((2, 6), (3, 4))):
+        obls = section_series(rep, n, K, diagonal=True)
+        rep.finish(rep.batch(obls), PROP)
     for n in ((2, 3) if run.tier == 'quick' else (2, 3, 4)):
         for obls in section_nilpotent(rep, n):
             rep.finish(rep.batch(obls), PROP)
@@ -346,6 +360,30 @@ def replay(spec):
     from scipy.linalg import expm
     pt = spec['point']
     n = (spec.get('params') or {}).get('n', 2)
+    if spec.get('check') == 'diagonal':
+        # exactly diagonal F: equal, opposite, zero and mixed rates; reference = van Loan with scipy's expm
+        fails = []
+        rng = np.random.RandomState(5)
+        a_ = abs(float(pt.get('F00', 0.5))) or 0.5
+        pats = [[a_, -a_], [-a_, a_], [0.0, a_], [0.0, 0.0], [a_, a_], [-0.3, -1.1], [0.7, -0.7, 0.0], [0.0, 0.2, -0.2]]
+        for rates in pats:
+            n_ = len(rates)
+            Fd = np.diag(rates)
+            A = rng.uniform(-1, 1, (n_, n_))
+            Q = A @ A.T
+            for dt in (0.0, 0.3, 2.0):
+                Phi, Qd = kalman.compute_process_matrices(Fd.copy(), Q.copy(), dt)
+                Hm = np.zeros((2 * n_, 2 * n_))
+                Hm[:n_, :n_] = Fd
+                Hm[:n_, n_:] = Q
+                Hm[n_:, n_:] = -Fd.T
+                E_ = expm(Hm * dt)
+                Pr, Qr = E_[:n_, :n_], E_[:n_, n_:] @ E_[:n_, :n_].T
+                if not (np.all(np.isfinite(Phi)) and np.all(np.isfinite(Qd))):
+                    fails.append('diagonal F %s, dt=%g: result not finite (Qd = %s)' % (rates, dt, np.asarray(Qd).tolist()))
+                elif np.abs(Phi - Pr).max() > 1e-9 * max(1.0, np.abs(Pr).max()) or np.abs(Qd - Qr).max() > 1e-9 * max(1e-12, np.abs(Qr).max()):
+                    fails.append('diagonal F %s, dt=%g: Phi off by %.3g, Qd off by %.3g' % (rates, dt, np.abs(Phi - Pr).max(), np.abs(Qd - Qr).max()))
+        return {'violated': bool(fails), 'detail': fails[:6]}
     if spec.get('check') == 'typed':
         fails = []
         rng = np.random.RandomState(3)
